@@ -49,10 +49,44 @@ Proof.
   exfalso; apply Hab; eapply single_failure_unique; eauto.
 Qed.
 
+(* the first refused request at or before a refused one *)
+Fixpoint find_first (f : oracle) (base n : nat) : option nat :=
+  match n with
+  | 0 => None
+  | S n' => match find_first f base n' with
+            | Some m => Some m
+            | None => if f (base + n') then None else Some n'
+            end
+  end.
+
+Lemma find_first_spec f base n :
+  match find_first f base n with
+  | Some m => m < n /\ f (base + m) = false /\ forall k, k < m -> f (base + k) = true
+  | None => forall k, k < n -> f (base + k) = true
+  end.
+Proof.
+  induction n as [|n IH]; simpl; [intros k Hk; lia|].
+  destruct (find_first f base n) as [m|].
+  - destruct IH as (Hm & Hf & Hp). repeat split; auto.
+  - destruct (f (base + n)) eqn:E.
+    + intros k Hk. destruct (Nat.eq_dec k n) as [->|Hne]; [exact E | apply IH; lia].
+    + repeat split; auto.
+Qed.
+
+Lemma first_failure f base i :
+  f (base + i) = false ->
+  exists m, m <= i /\ f (base + m) = false /\ forall k, k < m -> f (base + k) = true.
+Proof.
+  intros Hf. pose proof (find_first_spec f base (S i)) as H.
+  destruct (find_first f base (S i)) as [m|].
+  - destruct H as (Hm & Hfm & Hp). exists m. repeat split; auto. lia.
+  - rewrite H in Hf by lia. discriminate.
+Qed.
+
 (* ---------------------------------------------------------------------------------- *)
 (* heap ledger                                                                          *)
 (* ---------------------------------------------------------------------------------- *)
-Definition blk := nat.
+Notation blk := nat (only parsing).
 
 Record heap := mkHeap {
   h_next : nat;          (* index of the next allocation request *)
@@ -201,22 +235,26 @@ Lemma malloc_n_spec f k : forall acc h,
   exists bs ok h', malloc_n f k acc h = Ok ((bs, ok), h')
     /\ (exists new, bs = new ++ acc /\ h_live h' = new ++ h_live h
                     /\ (ok = true -> length new = k) /\ length new <= k
-                    /\ h_next h' = h_next h + length new + (if ok then 0 else 1))
+                    /\ h_next h' = h_next h + length new + (if ok then 0 else 1)
+                    /\ (forall b, In b new -> h_next h <= b < h_next h + length new))
     /\ (ok = false <-> exists j, j < k /\ f (h_next h + j) = false /\ forall i, i < j -> f (h_next h + i) = true).
 Proof.
   induction k as [|k IH]; intros acc h; simpl.
   - exists acc, true, h. split; [reflexivity|]. split.
-    + exists []. simpl. repeat split; auto; lia.
+    + exists []. simpl. repeat split; auto; try lia; try tauto.
     + split; [discriminate | intros [j [Hj _]]; lia].
   - unfold bindM. unfold malloc at 1. destruct (f (h_next h)) eqn:E.
     + destruct (IH (h_next h :: acc) (mkHeap (S (h_next h)) (h_next h :: h_live h)))
-        as [bs [ok [h' [Hrun [[new [Hbs [Hlive [Hlen [Hle Hnext]]]]] Hfail]]]]].
+        as [bs [ok [h' [Hrun [[new [Hbs [Hlive [Hlen [Hle [Hnext Hbnd]]]]]] Hfail]]]]].
       exists bs, ok, h'. split; [exact Hrun|]. split.
       * exists (new ++ [h_next h]). simpl in *. rewrite <- !app_assoc. simpl.
         repeat split; auto.
         -- intros Hok. rewrite app_length. simpl. apply Hlen in Hok. lia.
         -- rewrite app_length. simpl. lia.
         -- rewrite app_length. simpl. lia.
+        -- apply in_app_or in H. destruct H as [H|[H|[]]]; [apply Hbnd in H; lia | lia].
+        -- apply in_app_or in H. rewrite app_length. simpl.
+           destruct H as [H|[H|[]]]; [apply Hbnd in H; lia | lia].
       * simpl in Hfail. rewrite Hfail. split.
         -- intros [j [Hj [Hfj Hpre]]]. exists (S j). split; [lia|]. split.
            ++ replace (h_next h + S j) with (S (h_next h + j)) by lia. exact Hfj.
@@ -228,20 +266,26 @@ Proof.
               ** replace (S (h_next h + j)) with (h_next h + S j) by lia. exact Hfj.
               ** intros i Hi. replace (S (h_next h + i)) with (h_next h + S i) by lia. apply Hpre. lia.
     + exists acc, false, (mkHeap (S (h_next h)) (h_live h)). split; [reflexivity|]. split.
-      * exists []. simpl. repeat split; auto; try lia; try discriminate.
+      * exists []. simpl. repeat split; auto; try lia; try discriminate; try tauto.
       * split; [|reflexivity]. intros _. exists 0. split; [lia|]. split.
         -- rewrite Nat.add_0_r. exact E.
         -- intros i Hi. lia.
 Qed.
 
+Lemma remove_one_middle b l1 l2 : ~ In b l1 -> remove_one b (l1 ++ b :: l2) = l1 ++ l2.
+Proof.
+  induction l1 as [|x r IH]; simpl; intros H; [rewrite Nat.eqb_refl; reflexivity|].
+  destruct (Nat.eqb_spec x b) as [E|E]; [exfalso; apply H; left; exact E|].
+  f_equal. apply IH. tauto.
+Qed.
+
 (* freeing, most recent first, exactly the blocks that were pushed restores the ledger *)
 Lemma free_all_prefix new : forall h rest,
-  h_live h = new ++ rest -> NoDup new ->
+  h_live h = new ++ rest ->
   free_all new h = Ok (tt, mkHeap (h_next h) rest).
 Proof.
-  induction new as [|b r IH]; intros h rest Hl Hnd; simpl in *.
+  induction new as [|b r IH]; intros h rest Hl; simpl in *.
   - destruct h; simpl in *; subst; reflexivity.
   - unfold bindM, free. rewrite Hl. simpl. rewrite Nat.eqb_refl. simpl.
-    rewrite (IH (mkHeap (h_next h) (r ++ rest)) rest); simpl;
-      [reflexivity | reflexivity | inversion Hnd; assumption].
+    rewrite (IH (mkHeap (h_next h) (r ++ rest)) rest); simpl; reflexivity.
 Qed.
